@@ -277,6 +277,13 @@ def _r074(ctx: Ctx) -> None:
 
 # ------------------------------------------------------------------- R07.7 direct
 
+def _ev_of(text: str) -> frozenset:
+    """'P{YZ}' -> {'Y','Z'}"""
+    if text.startswith('P{') and text.endswith('}'):
+        return frozenset(text[2:-1])
+    return frozenset()
+
+
 def _r077(ctx: Ctx) -> None:
     m = ctx.model
     ci = m.cls('BeliefPropagationOSDDecoder')
@@ -298,29 +305,52 @@ def _r077(ctx: Ctx) -> None:
             ev = {p: Event({p}) for p in PAULIS}
             ret = it.call_closure(Closure(fn, mi, ci), [sector.Corr(cond), ev['X'], ev['Y'], ev['Z']],
                                   {'direction': direction}, fn, self_obj=o)
-            return ret, list(log)
+            return ret, list(log), dict(hooks.store)
         outs = guard('R07.7', mi, fn)(lambda: it.explore(thunk))
-        seen = {}
+        tgt = sector.OTHER[cond]
+        verdicts = {True: [], False: []}
         for o in outs:
             if o.kind != 'return':
                 continue
-            ret, lg = o.value
+            ret, lg, st_end = o.value
             if not isinstance(ret, sector.ProbCell) or 'TOP' in repr(ret.value):
                 # the returned array is not one the generic-qubit reading follows: undecided, never a violation
                 raise AnalysisError('R07.7', site, f'update_probabilities("{direction}") returns {ret!r}: '
                                                    f'per-qubit value not tracked')
-            for kind, st, value in lg:
-                if kind == 'prob-store' and 'flipped' in st:
-                    seen[st['flipped']] = value
-        tgt = sector.OTHER[cond]
+            st = {}
+            for kind, st_, value in lg:
+                if kind == 'prob-store':
+                    st = st_
+            # the path's assumptions: flipped or not, and which probabilities were found to be zero
+            st_all = dict(st)
+            st_all.update(st_end)
+            zero = [k[1][1] for k, v_ in st_all.items() if isinstance(k, tuple) and k[0] == 'maybe' and v_ is False]
+            flips = [st_all['flipped']] if 'flipped' in st_all else [True, False]
+            for flipped in flips:
+                C = FLIP[cond] if flipped else Event(ALL - FLIP[cond].s)
+                if repr(C) in zero:
+                    continue                         # conditioning on an event of probability zero: any value will do
+                want = Ratio(Event(FLIP[tgt].s & C.s), C)
+                got = ret.value
+                num_zero = any(repr(Event(FLIP[tgt].s & C.s)) == z or
+                               (Event(FLIP[tgt].s & C.s).s <= _ev_of(z)) for z in zero)
+                ok = got == want or (got == 0 and num_zero)
+                verdicts[flipped].append((ok, got, want, zero))
         for flipped in (True, False):
-            C = FLIP[cond] if flipped else Event(ALL - FLIP[cond].s)
-            want = Ratio(Event(FLIP[tgt].s & C.s), C)
-            got = seen.get(flipped)
+            vs = verdicts[flipped]
+            bad = [v_ for v_ in vs if not v_[0]]
+            ok = bool(vs) and not bad
+            if not vs:
+                detail = 'no path of the function covers this outcome'
+            elif bad:
+                _, got, want, zero = bad[0]
+                detail = (f'returns {got!r}' + (f' on the path where {", ".join(zero)} = 0' if zero else '') +
+                          f', expected {want!r}')
+            else:
+                detail = ''
             ctx.ob('R07.7', site, f'update_probabilities("{direction}"): P({tgt} flip | {cond} '
-                                  f'{"flipped" if flipped else "not flipped"})', got == want,
-                   f'stores {got!r}, expected {want!r}', key=f'update_probabilities|{direction}|{int(flipped)}',
-                   facts=repr(got))
+                                  f'{"flipped" if flipped else "not flipped"})', ok, detail,
+                   key=f'update_probabilities|{direction}|{int(flipped)}', facts=[repr(v_[1]) for v_ in vs])
     # unknown direction rejected
     it = Interp(m, sector.SectorHooks(m, True, []))
     sector._CUR['it'], sector._CUR['store'] = it, {}
